@@ -36,16 +36,30 @@ pub fn fen(n_games: u64) {
         let mut dp: Option<usize> = None;
         // a root given with an ep flag: the passed-over square is known from the flag
         if let Some(e) = b.en_passant() { dp = Some(e.ubackward(!b.side_to_move()).to_index()); }
-        for _ in 0..80 {
+        let emit = |out: &mut std::io::BufWriter<std::io::StdoutLock>, b: &Board, dp: Option<usize>| {
             let disp = format!("{}", b);
-            let bb: BoardBuilder = (&b).into();
+            let bb: BoardBuilder = b.into();
             let bdisp = format!("{}", bb);
             let bb2 = BoardBuilder::from_str(&bdisp);
             let brt = match bb2 { Ok(x) => (builder_enc(&x) == builder_enc(&bb)) as u8, Err(_) => 0 };
             let four: String = disp.split(' ').take(4).collect::<Vec<&str>>().join(" ");
-            writeln!(out, "F {} | dp={} | {} | {} | brt={} same={} | {}", enc(&b),
+            writeln!(out, "F {} | dp={} | {} | {} | brt={} same={} | {}", enc(b),
                 match dp { Some(x) => x.to_string(), None => "-".to_string() }, hex(&disp),
                 board_res(Board::from_str(&disp)), brt, (disp == bdisp) as u8, board_res(Board::from_str(&four))).unwrap();
+        };
+        for step in 0..80 {
+            emit(&mut out, &b, dp);
+            // every double pawn push available here (at the root and now and then later): the
+            // en-passant field of each successor, whatever the playout chooses to play
+            if step == 0 || rng.chance(1, 6) {
+                for m in MoveGen::new_legal(&b) {
+                    let (sr, dr) = (m.get_source().get_rank().to_index() as i32, m.get_dest().get_rank().to_index() as i32);
+                    if b.piece_on(m.get_source()) == Some(Piece::Pawn) && (sr - dr).abs() == 2 {
+                        let nb = b.make_move_new(m);
+                        emit(&mut out, &nb, Some(((sr + dr) / 2) as usize * 8 + m.get_source().get_file().to_index()));
+                    }
+                }
+            }
             if rng.chance(1, 15) { if let Some(nb) = b.null_move() { b = nb; dp = None; continue; } }
             match biased_move(&b, &mut rng) {
                 Some(m) => {
@@ -62,6 +76,7 @@ pub fn fen(n_games: u64) {
 
 /// stage 3 of the FEN and SAN pipelines: lines "X <enc> | <hex text> ..." -> parse results
 pub fn parse_stage(kind: &str) {
+    std::panic::set_hook(Box::new(|_| {}));
     let stdin = std::io::stdin();
     let out = std::io::stdout(); let mut out = std::io::BufWriter::new(out.lock());
     for line in stdin.lock().lines() {
